@@ -18,6 +18,7 @@ type op struct {
 	obj     interface{}
 	label   string
 	enabled func() bool
+	sleeper bool // low priority: only runs when nothing else can
 }
 
 func (o *op) isEnabled() bool {
@@ -388,6 +389,19 @@ func (s *Sched) schedule(from *thread) {
 		}
 		if t.pending != nil && t.pending.isEnabled() {
 			enabled = append(enabled, t.id)
+		}
+	}
+	// sleepers only run when no other thread is enabled
+	var awake []int
+	for _, id := range enabled {
+		if p := s.threads[id].pending; p == nil || !p.sleeper {
+			awake = append(awake, id)
+		}
+	}
+	if len(awake) > 0 && len(awake) < len(enabled) {
+		enabled = awake
+		if curOK && (from.pending != nil && from.pending.sleeper) {
+			curOK = false
 		}
 	}
 	if allDone {
